@@ -50,6 +50,10 @@ type wireParams struct {
 	MaxFrame  uint32 `json:"destination_max_frame_size,omitempty"` // 0: the default, 16384
 	Lazy      bool   `json:"destination_grants_window_late,omitempty"`
 	Factories string `json:"factories,omitempty"` // "" both directions processed; c2s_only; s2c_only; none; chain2
+	// early response: History = [client half, server half] of ONE stream; the server sends its whole half (ending
+	// the stream on its side) after the client's first After DATA frames, then the client goes on and half-closes
+	EarlyResponse bool `json:"server_ends_stream_first,omitempty"`
+	After         int  `json:"after_client_data_frames,omitempty"`
 }
 
 const (
@@ -128,6 +132,8 @@ type endpoint struct {
 	conn io.ReadWriteCloser
 	fr   *http2.Framer
 	wmu  sync.Mutex
+	ctrl chan func() error // acknowledgements and window credit, written by a goroutine of their own
+	done chan struct{}
 	hbuf bytes.Buffer
 	henc *hpack.Encoder
 
@@ -139,6 +145,7 @@ type endpoint struct {
 	frames   int
 	oversize string
 	settings int
+	pings    map[[8]byte]bool
 	readErr  error
 
 	maxFrame   uint32 // what this endpoint advertised
@@ -160,9 +167,30 @@ func newEndpoint(conn io.ReadWriteCloser, maxFrame uint32, lazy bool) *endpoint 
 	}
 	e.cond = sync.NewCond(&e.mu)
 	e.henc = hpack.NewEncoder(&e.hbuf)
+	// The reader never writes itself: net.Pipe is synchronous, so a reader waiting for the write lock while the
+	// sender is blocked in a write that the proxy cannot take (because it is itself writing to this endpoint)
+	// would be a deadlock of the harness.
+	e.ctrl, e.done = make(chan func() error, 4096), make(chan struct{})
+	go func() {
+		for {
+			select {
+			case f := <-e.ctrl:
+				e.write(f)
+			case <-e.done:
+				return
+			}
+		}
+	}()
 	e.fr.SetMaxReadFrameSize(1<<24 - 1)
 	e.fr.ReadMetaHeaders = hpack.NewDecoder(4096, nil)
 	return e
+}
+
+func (e *endpoint) later(f func() error) {
+	select {
+	case e.ctrl <- f:
+	case <-e.done:
+	}
 }
 
 func (e *endpoint) write(f func() error) error {
@@ -241,6 +269,13 @@ func (e *endpoint) readLoop() {
 				}
 				e.sendStream[f.StreamID] += int(f.Increment)
 			}
+		case *http2.PingFrame:
+			if !f.IsAck() {
+				if e.pings == nil {
+					e.pings = map[[8]byte]bool{}
+				}
+				e.pings[f.Data] = true
+			}
 		case *http2.RSTStreamFrame:
 			e.events[f.StreamID] = append(e.events[f.StreamID], sinkEvent{kind: 'R'})
 		case *http2.PriorityFrame:
@@ -251,13 +286,13 @@ func (e *endpoint) readLoop() {
 		e.cond.Broadcast()
 		e.mu.Unlock()
 		if ack {
-			e.write(func() error { return e.fr.WriteSettingsAck() })
+			e.later(func() error { return e.fr.WriteSettingsAck() })
 		}
 		if grantConn > 0 {
-			e.write(func() error { return e.fr.WriteWindowUpdate(0, grantConn) })
+			e.later(func() error { return e.fr.WriteWindowUpdate(0, grantConn) })
 		}
 		if grantStream > 0 {
-			e.write(func() error { return e.fr.WriteWindowUpdate(grantID, grantStream) })
+			e.later(func() error { return e.fr.WriteWindowUpdate(grantID, grantStream) })
 		}
 	}
 }
@@ -314,6 +349,16 @@ func (e *endpoint) sendData(id uint32, data []byte, end bool) error {
 	e.sendStream[id] -= n
 	e.mu.Unlock()
 	return e.write(func() error { return e.fr.WriteData(id, end, data) })
+}
+
+// pingBarrier sends a PING and waits until the peer endpoint has received it. The relay forwards a PING when its
+// reader reaches it, i.e. after it has completely processed every frame this endpoint sent before.
+func (e *endpoint) pingBarrier(peer *endpoint, tag byte) bool {
+	data := [8]byte{'c', '1', '1', tag}
+	if err := e.write(func() error { return e.fr.WritePing(false, data) }); err != nil {
+		return false
+	}
+	return peer.waitUntil(wireHang, func() bool { return peer.pings[data] })
 }
 
 func (e *endpoint) sawEnd(id uint32) bool {
@@ -379,6 +424,7 @@ type wireCase struct {
 	streams []wireStream
 	order   []int // which stream sends its next frame; nil = one stream after the other
 	p       wireParams
+	resp    *wireStream // p.EarlyResponse: the server's half of streams[0]
 }
 
 func wireCuts(b *built, extra []int) []int {
@@ -402,6 +448,10 @@ func wireCuts(b *built, extra []int) []int {
 
 func (c *wireCase) toCase(items []*item, cuts [][]int) Case {
 	p := c.p
+	if c.resp != nil {
+		ri := newItem(c.resp.cfg)
+		return Case{Wire: &p, Duplex: true, History: []Case{items[0].caseOf(cuts[0]), ri.caseOf(wireCuts(ri.b, c.resp.extra))}}
+	}
 	if len(items) == 1 {
 		cs := items[0].caseOf(cuts[0])
 		cs.Wire = &p
@@ -415,10 +465,12 @@ func (c *wireCase) toCase(items []*item, cuts [][]int) Case {
 }
 
 type wireOutcome struct {
-	perStream [][]symptom
-	frames    int
-	hung      bool
-	setupErr  string
+	extraItems []*item // halves judged in addition to the case's streams (early response: the server's half)
+	extraCuts  [][]int
+	perStream  [][]symptom
+	frames     int
+	hung       bool
+	setupErr   string
 }
 
 // runWire executes one case through a fresh h2.Config.Proxy session.
@@ -427,6 +479,12 @@ func (w *wireWorld) runWire(c *wireCase, items []*item, cuts [][]int) *wireOutco
 	K := len(items)
 	dir := items[0].cfg.dir
 
+	var respItem *item
+	var respCuts []int
+	if c.resp != nil {
+		respItem = newItem(c.resp.cfg)
+		respCuts = wireCuts(respItem.b, c.resp.extra)
+	}
 	// processor factories
 	mk := func(withC, withS bool) *wireFactory {
 		f := &wireFactory{withC2S: withC, withS: withS}
@@ -438,6 +496,9 @@ func (w *wireWorld) runWire(c *wireCase, items []*item, cuts [][]int) *wireOutco
 				es = it.b.plain
 			}
 			f.expC, f.expS = append(f.expC, ec), append(f.expS, es)
+		}
+		if respItem != nil {
+			f.expS[0] = respItem.b.plain
 		}
 		return f
 	}
@@ -480,8 +541,13 @@ func (w *wireWorld) runWire(c *wireCase, items []*item, cuts [][]int) *wireOutco
 	case sconn = <-w.accept:
 	case <-time.After(wireHang):
 	}
+	var server *endpoint
 	teardown := func() {
 		close(closing)
+		close(client.done)
+		if server != nil {
+			close(server.done)
+		}
 		cc.Close()
 		if sconn != nil {
 			sconn.Close()
@@ -504,7 +570,7 @@ func (w *wireWorld) runWire(c *wireCase, items []*item, cuts [][]int) *wireOutco
 		return out
 	}
 	sconn.SetReadDeadline(time.Time{})
-	server := newEndpoint(sconn, c.p.MaxFrame, c.p.Lazy)
+	server = newEndpoint(sconn, c.p.MaxFrame, c.p.Lazy)
 	if err := <-clientUp; err != nil {
 		out.setupErr = "client preface: " + err.Error()
 		teardown()
@@ -555,6 +621,53 @@ func (w *wireWorld) runWire(c *wireCase, items []*item, cuts [][]int) *wireOutco
 			for range srcs[k] {
 				order = append(order, k)
 			}
+		}
+	}
+	var respSrc []srcEvent
+	if respItem != nil {
+		// the server answers, and ends the stream on its side, while the client is still sending
+		order = nil
+		respSrc = respItem.source(respCuts)
+		sent, answered := 0, false
+		answer := func() {
+			answered = true
+			if !client.pingBarrier(server, 1) { // the relay has processed everything the client sent so far
+				sendErr = fmt.Errorf("PING from the client did not reach the server")
+				return
+			}
+			for _, e := range respSrc {
+				if sendErr != nil {
+					return
+				}
+				if e.isHdr {
+					sendErr = server.sendHeaders(id(0), e.hdr, e.end)
+				} else {
+					sendErr = server.sendData(id(0), e.data, e.end)
+				}
+			}
+			if sendErr == nil && !server.pingBarrier(client, 2) { // ... and the server's END_STREAM
+				sendErr = fmt.Errorf("PING from the server did not reach the client")
+			}
+		}
+		for i, e := range srcs[0] {
+			if sendErr != nil {
+				break
+			}
+			if i > 0 && !answered && (sent == c.p.After || e.end || e.isHdr) {
+				answer()
+				if sendErr != nil {
+					break
+				}
+			}
+			if e.isHdr {
+				sendErr = client.sendHeaders(id(0), e.hdr, e.end)
+			} else {
+				sendErr = client.sendData(id(0), e.data, e.end)
+				sent++
+			}
+		}
+		if !client.waitUntil(wireHang, func() bool { return client.sawEnd(id(0)) }) {
+			out.hung = true
 		}
 	}
 	for _, k := range order {
@@ -636,7 +749,7 @@ func (w *wireWorld) runWire(c *wireCase, items []*item, cuts [][]int) *wireOutco
 		it.bypass = !procDir
 		for _, f := range facs {
 			pcr, psr := f.pair(k)
-			r := &streamRun{it: it, sinkC: server.snapshot(id(k)), sinkS: client.snapshot(id(k)), procC: pcr, procS: psr, src: srcs[k]}
+			r := &streamRun{it: it, sinkC: server.snapshot(id(k)), sinkS: client.snapshot(id(k)), procC: pcr, procS: psr, src: srcs[k], duplex: respItem != nil}
 			for _, s := range r.finish() {
 				if s.sig == "cross_direction:processor_calls" && !otherDir {
 					continue // the opposite direction has no processor in this case
@@ -646,6 +759,22 @@ func (w *wireWorld) runWire(c *wireCase, items []*item, cuts [][]int) *wireOutco
 		}
 		it.bypass = false
 		out.perStream = append(out.perStream, syms)
+	}
+	if respItem != nil {
+		var syms []symptom
+		seen := map[string]bool{}
+		for _, f := range facs {
+			pcr, psr := f.pair(0)
+			r := &streamRun{it: respItem, sinkC: server.snapshot(id(0)), sinkS: client.snapshot(id(0)), procC: pcr, procS: psr, src: respSrc, duplex: true}
+			for _, s := range r.finish() {
+				if !seen[s.sig] {
+					seen[s.sig] = true
+					syms = append(syms, s)
+				}
+			}
+		}
+		out.perStream = append(out.perStream, syms)
+		out.extraItems, out.extraCuts = []*item{respItem}, [][]int{respCuts}
 	}
 	return out
 }
@@ -757,6 +886,8 @@ func wireCases(thorough bool) []wireCase {
 			}
 		}
 	}
+	// the server ends the stream first (a client-streaming or bidi call answered early): HTTP/2 half-close
+	out = append(out, earlyResponseCases(thorough)...)
 	// several streams of one direction sharing the connection
 	types := []config{}
 	for _, ct := range []string{"application/grpc", "application/json"} {
@@ -817,6 +948,52 @@ func wireCases(thorough bool) []wireCase {
 	return out
 }
 
+// straddleCuts cuts inside every prefix and inside every payload, never at a message boundary: whatever
+// number of DATA frames has been sent, a message is in flight.
+func straddleCuts(b *built) []int {
+	var cuts []int
+	for i := range b.starts {
+		cuts = append(cuts, b.starts[i]+2)
+		if n := b.ends[i] - b.starts[i] - 5; n >= 2 {
+			cuts = append(cuts, b.starts[i]+5+n/2)
+		}
+	}
+	return cuts
+}
+
+func earlyResponseCases(thorough bool) []wireCase {
+	var out []wireCase
+	type body struct {
+		enc  int
+		msgs []msgSpec
+	}
+	reqs := []body{{encIdentity, []msgSpec{{300, false}, {5, false}}}, {encGzip, []msgSpec{{300, true}, {1, false}}}}
+	resps := []struct {
+		b  body
+		pl int
+	}{{body{encIdentity, nil}, plHeadersOnly}, {body{encIdentity, nil}, plTrailers}, {body{encGzip, []msgSpec{{5, true}}}, plTrailers}, {body{encIdentity, []msgSpec{{5, false}}}, plLast}}
+	if thorough {
+		reqs = append(reqs, body{encSnappy, []msgSpec{{5, true}, {300, true}, {0, false}}}, body{encDeflate, []msgSpec{{1, false}, {300, true}}})
+	}
+	for _, rq := range reqs {
+		for _, pl := range []int{plLast, plSeparate} {
+			a := config{msgs: rq.msgs, enc: rq.enc, pl: pl, dir: dirC2S, ct: "application/grpc"}
+			ex := straddleCuts(build(a.msgs, a.enc))
+			frames := len(ex) + 1
+			if pl == plLast {
+				frames-- // the last chunk carries END_STREAM: the answer comes before it at the latest
+			}
+			for _, rs := range resps {
+				b := config{msgs: rs.b.msgs, enc: rs.b.enc, pl: rs.pl, dir: dirS2C, ct: "application/grpc"}
+				for after := 0; after <= frames; after++ {
+					out = append(out, wireCase{streams: []wireStream{{a, ex}}, resp: &wireStream{b, []int{2}}, p: wireParams{EarlyResponse: true, After: after}})
+				}
+			}
+		}
+	}
+	return out
+}
+
 func (c *wireCase) prepare() ([]*item, [][]int) {
 	var items []*item
 	var cuts [][]int
@@ -843,6 +1020,7 @@ func (w *wireWorld) judgeWire(c *wireCase) (out *wireOutcome, found []symptom, c
 	if out.setupErr != "" {
 		return out, []symptom{{"wire:setup_failed", out.setupErr}}, cs
 	}
+	items, cuts = append(items, out.extraItems...), append(cuts, out.extraCuts...)
 	for k, syms := range out.perStream {
 		solo := map[string]bool{}
 		if c.p.Factories == "" || c.p.Factories == "chain2" {
@@ -855,7 +1033,9 @@ func (w *wireWorld) judgeWire(c *wireCase) (out *wireOutcome, found []symptom, c
 				continue
 			}
 			desc := sy.desc
-			if len(items) > 1 {
+			if c.resp != nil {
+				desc = fmt.Sprintf("%s half of a stream that the server ends after the client's DATA frame #%d while the client goes on sending: %s", dirNames[k], c.p.After, desc)
+			} else if len(items) > 1 {
 				desc = fmt.Sprintf("stream %d of %d sharing one connection: %s", 2*k+1, len(items), desc)
 			}
 			found = append(found, symptom{"wire:" + sy.sig, "through the real h2.Config.Proxy relay: " + desc})
@@ -1071,6 +1251,14 @@ func evalWireCase(cs Case) ([]symptom, error) {
 	mlog.SetLevel(mlog.Silent)
 	c := &wireCase{p: *cs.Wire, order: cs.Order}
 	list := cs.History
+	if cs.Wire.EarlyResponse && len(list) == 2 {
+		rc, err := caseToConfig(list[1])
+		if err != nil {
+			return nil, err
+		}
+		c.resp = &wireStream{cfg: rc, extra: list[1].Cuts}
+		list = list[:1]
+	}
 	if len(list) == 0 {
 		list = []Case{cs}
 	}
@@ -1097,6 +1285,7 @@ func evalWireCase(cs Case) ([]symptom, error) {
 		return []symptom{{"wire:setup_failed", out.setupErr}}, nil
 	}
 	var found []symptom
+	items, cuts = append(items, out.extraItems...), append(cuts, out.extraCuts...)
 	for k, syms := range out.perStream {
 		solo := map[string]bool{}
 		if c.p.Factories == "" || c.p.Factories == "chain2" {
